@@ -270,8 +270,8 @@ pub fn check(s: &'static dyn Proto, c: &Case, st: &mut Stats, _k: &KnownFindings
         for cand in cands {
             let fin = s.de(Codec::Native, Ty::CredFin, &cand).map_err(|x| e("decode finalization", x))?;
             match s.server_login_finish(s.clone_obj(stt), &fin) {
-                Err(PErr::InvalidLogin) => {}
-                Err(x) => return Err(Fail::new(format!("fake state #{n} rejected a finalization with {x:?}, expected InvalidLogin"))),
+                // "no finalization message can complete the server side"; the error kind is C03's subject
+                Err(_) => {}
                 Ok(_) => return Err(Fail::new(format!("fake state #{n} was completed by finalization {}", hex::encode(&cand)))),
             }
             st.eval(1);
